@@ -136,6 +136,8 @@ def hostile_css():
         "a{b:0.0000000000000000000000000000000000000000000001rpx}", "\\" * 300, "a{b:'" + "\\" * 301 + "}", "a{b:url(" + "\\" * 301 + ")}", "U+" + "?" * 50,
         "@charset \"" + "x" * 1000, "@" * 300, "#" * 300, "." * 300, ":" * 300, "\0" * 100, "\U0001F600" * 300, "a{--x:" + "{" * d + "}" * d + "}", "@layer " + ",".join("l%d" % i for i in range(500)) + ";",
         "@font-face{unicode-range:U+0-10FFFF, U+" + "F" * 30 + "}", ".a{margin:1e;width:2.5E 3px}3E{} 1e{} .b{c:1\\65 }", "@import '首页';@import url(日本);@import '😀' layer(é) supports(中:1) 页;",
+        "@import 'a' Layer(b) screen; .a{x:1rpx}", "@import 'a' LAYER(b) Supports(c:d); .a{}", "@import url(a) SUPPORTS(display:grid) LAYER(x);", "@import 'a' lAyEr;",
+        "@IMPORT 'a' layer(b);", "@Import url(a) Supports(x:y) print;",
         ".é{} .中\\😀{} #é{} é|a{} [é=中]{} :é(中){} @é 中{} .a{é:中; --é:😀}", ".a{width:1é;height:2😀;top:3\\65 😀}", "@keyframes k{" + "".join("%d%%{a:b}" % i for i in range(101)) + "}", "<!--" * 100 + "-->" * 100,
     ]
 
